@@ -75,11 +75,13 @@ def run(ctx):
     lines = []
     nstall = 6 if ctx.thorough() else 1
     for k in range(ncase):
-        # last field: bit 0 = one more schedule in which a pack write stalls for 12 s behind one-blob
+        # last field: bit 0 = one more schedule in which a pack write stalls for 21 s behind one-blob
         # packs; bit 1 = prune (repack_all, fast and re-encoding repack into one-blob packs) under the watchdog
         extra = 2 | (1 if k < nstall else 0)
-        lines.append("%d %d %d %d %d" % (rng.randrange(1, 2 ** 40), nsched, rng.choice([6, 15, 30, 60]),
-                                         rng.choice([2000, 20000, 70000, 200000]), extra))
+        ne, fs = rng.choice([6, 15, 30, 60]), rng.choice([2000, 20000, 70000, 200000])
+        if extra & 1:
+            ne, fs = 60, 200000     # enough one-blob packs to queue up behind the stalled write
+        lines.append("%d %d %d %d %d" % (rng.randrange(1, 2 ** 40), nsched, ne, fs, extra))
     outs = []
     pools = ["1", "2", "4", "16"]
     per = (len(lines) + len(pools) - 1) // len(pools)
@@ -143,7 +145,7 @@ def run(ctx):
             if "stuck=false final=true" not in o or "all_indexed=true" not in o or "written_indexed=true" not in o:
                 mism.append((l, "random", o, "stuck=false final=true all_indexed=true written_indexed=true"))
     cov.update({"evaluations": len(lines) * nsched + nrand, "distinct_nontrivial": len(nontriv),
-                "rule": "case = seeded source tree (6..60 entries, files up to 2..200 KB, rabin avg 8 KiB) backed up %d times from the same initial repository under schedules j: pack sizes from one blob per pack to 4 MB, seeded 0..400 us delays before every backend write (off for j%%3==0), RAYON_NUM_THREADS in {1,2,4,16}; in a few cases one more schedule with a 12 s stall of one pack write behind one-blob packs; every case also runs backup, backup of a reduced source, forget, prune --repack-all (fast and re-encoding) into one-blob packs under the watchdog; non-trivial = at least two schedules produced different pack layouts" % nsched,
+                "rule": "case = seeded source tree (6..60 entries, files up to 2..200 KB, rabin avg 8 KiB) backed up %d times from the same initial repository under schedules j: pack sizes from one blob per pack to 4 MB, seeded 0..400 us delays before every backend write (off for j%%3==0), RAYON_NUM_THREADS in {1,2,4,16}; in a few cases one more schedule with a 21 s stall of one pack write behind one-blob packs; every case also runs backup, backup of a reduced source, forget, prune --repack-all (fast and re-encoding) into one-blob packs under the watchdog; non-trivial = at least two schedules produced different pack layouts" % nsched,
                 "samples": samples, "distribution": hist,
                 "traces_validated_against_impl": len(replays), "model_random_runs": nrand,
                 "disagreements_checked": len(mism) + len(viol), "model_impl_mismatches": len(mism), "oracle_violations": len(viol)})
